@@ -353,6 +353,10 @@ func c16Run(c *fw.Ctx) fw.Outcome {
 			mf = f.metaFps
 		}
 		sub.Metadata = &astisub.Metadata{Framerate: mf, STLDisplayStandardCode: "0", STLCreationDate: &cd, STLRevisionDate: &cd, STLTimecodeStartOfProgramme: time.Duration(f.tcp)}
+		if cs.doc%3 == 1 {
+			// descriptive fields as another format's reader leaves them: letters beyond ASCII, longer than the GSI columns
+			sub.Metadata.Title, sub.Metadata.STLPublisher, sub.Metadata.STLEditorName = "Les Misérables – épisode n° 12 (version française)", "Télévision", "Łukasz"
+		}
 	}
 	if f.vttMap {
 		sub.Metadata = &astisub.Metadata{WebVTTTimestampMap: &astisub.WebVTTTimestampMap{Local: 3723*time.Second + 4*time.Millisecond, MpegTS: 900000}}
